@@ -95,13 +95,14 @@ def judge_native(rule_name, seq, collecting):
 
 def encode(job):
     """One encoding: (rule, L, collecting). Returns a dict of verdicts, counterexamples and statistics."""
-    rule_name, L, collecting, sd = job
+    rule_name, L, collecting, sd = job[:4]
+    prefix = list(job[4]) if len(job) > 4 else []
     from metapype.eml import rule as R
     from metapype.eml.exceptions import ChildNotAllowedError, MinOccurrenceUnmetError, MaxOccurrenceExceededError
     from metapype.model.node import Node
     OKERR = (ChildNotAllowedError, MinOccurrenceUnmetError, MaxOccurrenceExceededError)
     t00 = time.time()
-    res = {"rule": rule_name, "L": L, "collecting": collecting, "verdicts": {}, "cex": {}, "twins": {}}
+    res = {"rule": rule_name, "L": L, "collecting": collecting, "verdicts": {}, "cex": {}, "twins": {}, "prefix": prefix}
     spec = R.rules_dict[rule_name][1]
     mixed = rule_name in M.MIXED_RULES
     alpha = list(dict.fromkeys(M.symbols(spec)))
@@ -109,7 +110,8 @@ def encode(job):
     for a in alpha:
         it.intern.code(a)
     it.intern.code("")
-    names = [it.name("n%d" % i) for i in range(L)]
+    syms = [it.name("n%d" % i) for i in range(L)]
+    names = list(prefix) + syms          # concrete access word of a reference-automaton state, then the symbolic part
     Node.store.clear()
     el = emlctx.element_for_rule(rule_name) or "x"
     parent = Node(el, id="p", content=emlctx.valid_content(rule_name))
@@ -143,7 +145,7 @@ def encode(job):
         accept = normal
         other = zor(*[g for g, e in esc if not isinstance(e, OKERR)])
         reject = rej_ok
-    codes = [n.z for n in names]
+    codes = [it.mkint(it.intern.code(n)) if isinstance(n, str) else n.z for n in names]
     dlo = M.build_dfa(M.compile_spec(spec, mixed, False), alpha)
     dhi = M.build_dfa(M.compile_spec(spec, mixed, True), alpha)
     if max(dlo[0], dhi[0]) + len(it.intern.names) + 4 >= 2 ** (BV - 1):
@@ -155,7 +157,7 @@ def encode(job):
         lo_acc = hi_acc = z3.BoolVal(L <= 1)
     s = it.solver
     s.set("timeout", 600000)
-    dom = zand(*[it.intern.domain(c) for c in codes])
+    dom = zand(*[it.intern.domain(n.z) for n in syms])
     s.add(dom)
     queries = {
         "accepts_nonmember": zand(accept, znot(hi_acc)),
@@ -168,7 +170,7 @@ def encode(job):
     t1 = time.time()
 
     def decode(m):
-        return [it.intern.decode(it.val(m.eval(z, model_completion=True))) for z in codes]
+        return list(prefix) + [it.intern.decode(it.val(m.eval(n.z, model_completion=True))) for n in syms]
 
     for qn, q in queries.items():
         rr = str(s.check(q))
@@ -188,6 +190,28 @@ def encode(job):
     return res
 
 
+def access_words(rule_name):
+    """Shortest access word of every live state of the rule's reference (lo) automaton."""
+    from metapype.eml import rule as R
+    if emlctx.element_for_rule(rule_name) == "metadata":
+        return []
+    spec = R.rules_dict[rule_name][1]
+    alpha = list(dict.fromkeys(M.symbols(spec)))
+    n, delta, finals, dead = M.build_dfa(M.compile_spec(spec, rule_name in M.MIXED_RULES, False), alpha)
+    seen = {0: []}
+    frontier = [0]
+    while frontier:
+        nxt = []
+        for q in frontier:
+            for a in alpha:
+                q2 = delta[(q, a)]
+                if q2 != dead and q2 not in seen:
+                    seen[q2] = seen[q] + [a]
+                    nxt.append(q2)
+        frontier = nxt
+    return [w for w in seen.values() if w]
+
+
 def run(tier, only=None):
     from metapype.eml import rule as R
     rep = Report(PROP, tier, "PyBMC merged symbolic execution of rule.py from source + z3 QF_BV; oracle: derivative DFA")
@@ -202,9 +226,24 @@ def run(tier, only=None):
             top = b[("wide_" if wide else "") + ("collecting" if coll else "failfast")]
             for L in range(0, top + 1):
                 jobs.append((rn, L, coll, sd))
-    jobs.sort(key=lambda j: -j[1] - (3 if j[0] in WIDE else 0))     # longest first
+    # state cover: from the access word of every state of the rule's reference automaton, all continuations of length <= k
+    # (reaches deep positions of long content models that plain bounded-length search cannot)
+    k_suffix = 2 if tier == "quick" else 3
+    ncover = 0
+    for rn in rules:
+        top = b[("wide_" if rn in WIDE else "") + "failfast"]
+        for w in access_words(rn):
+            if len(w) + k_suffix <= top:
+                continue                              # already inside the plain bounded search
+            for coll in (False, True):
+                for L in range(1, k_suffix + 1):
+                    jobs.append((rn, L, coll, sd, tuple(w)))
+                    ncover += 1
+    rep.extra["state_cover_encodings"] = ncover
+    jobs.sort(key=lambda j: -j[1] - (3 if j[0] in WIDE else 0) - len(j[4]) if len(j) > 4 else -j[1] - (3 if j[0] in WIDE else 0))
     rep.bounds = dict(b, note="child sequences of length 0..N per rule and mode; names range over the rule's child "
-                              "names plus a foreign name; wide rules: %s" % ", ".join(WIDE), bv_width=BV)
+                              "names plus a foreign name; wide rules: %s; plus the state cover: for every state of the reference automaton whose "
+                              "access word is too long for the plain search, that concrete word followed by 1..%d symbolic names" % (", ".join(WIDE), k_suffix), bv_width=BV)
     rep.extra["rule"] = ("one encoding per (rule, length, mode); non-trivial when both reachability twins "
                          "(some sequence accepted / some sequence rejected) are satisfiable or the length admits only one outcome "
                          "and that one is witnessed")
@@ -219,8 +258,8 @@ def run(tier, only=None):
     validated = 0
     per_rule_accept = {}
     for status, job, r in common.pool_map(encode, jobs):
-        rn, L, coll, _ = job
-        tag = "%s L=%d %s" % (rn, L, "collecting" if coll else "fail-fast")
+        rn, L, coll = job[0], job[1], job[2]
+        tag = "%s L=%d %s%s" % (rn, L, "collecting" if coll else "fail-fast", (" after %r" % (list(job[4]),)) if len(job) > 4 else "")
         if status != "ok":
             rep.mismatch.append("%s: engine crashed: %s" % (tag, r[:300]))
             continue
@@ -259,7 +298,7 @@ def run(tier, only=None):
                     if not m:
                         rep.mismatch.append("%s: encoding says %s for %r, native run says %s" % (tag, expect, tw[k], out))
         if tw.get("reach_reject") == "sat" and tw.get("reach_accept") == "sat":
-            rep.nontrivial.add((rn, L, coll))
+            rep.nontrivial.add((rn, L, coll, tuple(job[4]) if len(job) > 4 else ()))
         if L >= 2:
             rep.sample({"rule": rn, "L": L, "mode": "collecting" if coll else "fail-fast", "verdicts": r["verdicts"],
                         "accepted_example": tw.get("reach_accept_model"), "rejected_example": tw.get("reach_reject_model"),
